@@ -583,18 +583,18 @@ theorem inv_drainSlots_go {c : Conn} (h : Inv c) (r : Reply) (m : CMsg) (all l :
     dsimp only
     split
     · rename_i heq
-      have h1 := (inv_sendReply h s.lid r).of_eq_fst heq
+      have h1 := (inv_notifyConsumers h m s.consumers).of_eq_fst heq
       have h2 := inv_foldl_dropSlotEnds h1 (s :: rest.map (·.2))
       inv_same h2
     · rename_i heq
-      have h1 := (inv_sendReply h s.lid r).of_eq_fst heq
+      have h1 := (inv_notifyConsumers h m s.consumers).of_eq_fst heq
       split
       · rename_i heq2
-        have h2 := (inv_notifyConsumers h1 m s.consumers).of_eq_fst heq2
+        have h2 := (inv_sendReply h1 s.lid r).of_eq_fst heq2
         have h3 := inv_foldl_dropSlotEnds h2 (s :: rest.map (·.2))
         inv_same h3
       · rename_i heq2
-        have h2 := (inv_notifyConsumers h1 m s.consumers).of_eq_fst heq2
+        have h2 := (inv_sendReply h1 s.lid r).of_eq_fst heq2
         exact ih (inv_dropSlotEnds h2 s)
 
 /-- `drainSlots` re-establishes the invariant from a state in which only the clauses about the
@@ -2455,12 +2455,12 @@ theorem same_drainSlots_go (r : Reply) (m : CMsg) (all : List (Nat × Slot)) (c 
     obtain ⟨k, s⟩ := x
     unfold drainSlots.go
     dsimp only
-    have h1 := same_sendReply c s.lid r
+    have h1 := same_notifyConsumers m c s.consumers
     split
     · rename_i heq; rw [heq] at h1
       exact h1.trans ((same_foldl_dropSlotEnds _ _).trans (same_with_nondet _ _))
     · rename_i c1 heq; rw [heq] at h1
-      have h2 := same_notifyConsumers m c1 s.consumers
+      have h2 := same_sendReply c1 s.lid r
       split
       · rename_i heq2; rw [heq2] at h2
         exact h1.trans (h2.trans ((same_foldl_dropSlotEnds _ _).trans (same_with_nondet _ _)))
